@@ -7,8 +7,21 @@ def norm(size):
     return max(48, int(size))
 
 
+def aligned_padded(c, count=2):
+    """object sizes that end exactly on a container boundary and are followed by padding (size % 4 != 0):
+    the decoder's seek over the padding then passes the put position while the next container is still missing"""
+    out = []
+    k = 1
+    while len(out) < count and k < 400:
+        s = k * c
+        if s >= 48 and s % 4:
+            out.append(s)
+        k += 1
+    return out
+
+
 def size_alphabet(b, c):
-    s = sorted({48, norm(b), norm(b + c), norm(2 * (b + c)), norm(4 * (b + c))})
+    s = sorted({48, norm(b), norm(b + c), norm(2 * (b + c)), norm(4 * (b + c))} | set(aligned_padded(c, 1)))
     return s
 
 
@@ -63,7 +76,7 @@ def grid_small(bound, bs=(64,), cs=None, qs=(1, 2), nmax=2, modes="rw", earlies=
     out = []
     for b in bs:
         for c in (cs or containers(b)):
-            alpha = sizes or [48, norm(b + c)]
+            alpha = sizes or ([48, norm(b + c)] + aligned_padded(c, 1))
             for q in qs:
                 for objs in seqs(alpha, nmax):
                     n = len(objs)
